@@ -268,4 +268,9 @@ def run(P, R, tier):
     c10.timer_lifecycle(P, Remap(R, {'C10.WMC.2': 'C01.TMR.1'}), cl10)
     # hurry-up ORs the required flags INTO the request's word: the primitive must be safe when the destination is an operand
     rules.bitset_primitives(P, R, 'C01.TAB.2')
+    # what is formatted for one client is not kept for the next (a tag cached in static storage names a retired client)
+    from . import c07
+    c07.storage_audit(P, Remap(R, {'C07.WMC.1': 'C01.WMC.3', 'C07.WMC.2': 'C01.WMC.3'}))
+    # ids, serials and masks are kept in members wide enough for them (id 40000 is a different client from id -25536)
+    rules.narrowing_fields(P, R, 'C01.WID.1', ('modules/iauth_core.c', 'modules/iauth_xquery.c', 'modules/iauth_class.c'))
     return EXPLANATION, ASSUMPTIONS, {'verdict_functions': sorted(V)}
